@@ -83,6 +83,19 @@ class SxDict:
                 self._h[k] = i
 
     def __contains__(self, key):
+        if _symbolic_key(key):
+            # membership only: one decision on the disjunction instead of one fork per key
+            conds = []
+            for k in self._k:
+                r = keys_equal(k, key)
+                if r is True:
+                    return True
+                if r is False:
+                    continue
+                conds.append(r)
+            if not conds:
+                return False
+            return bool(core.Or(*conds))
         return self._find(key) >= 0
 
     def __getitem__(self, key):
